@@ -54,18 +54,17 @@ def check(model: Model, run: Run) -> None:
         # group names
         groups = set(code.nfa.groups)
         n = 0
-        for c in walk_no_nested(fi.node):
-            if isinstance(c, ast.Call) and isinstance(c.func, ast.Attribute) and c.func.attr == "group" and c.args and isinstance(c.args[0], ast.Constant) and isinstance(c.args[0].value, str):
-                # which match object? the one bound from this pattern's match (others, e.g. NOIDLEN_MATCH, are checked against their own pattern)
-                recv = norm(c.func.value)
-                pat_for_recv = pattern_of_match_var(model, fi, recv)
-                gset = groups if pat_for_recv is None or pat_for_recv == s.name else set(Lang(build(sites[pat_for_recv].pattern, sites[pat_for_recv].flags, "match")).nfa.groups) if pat_for_recv in sites else groups
-                n += 1
-                ok = c.args[0].value in gset
-                run.ob("G2-group-names-exist", ok, {"class": cname, "group": c.args[0].value})
-                if not ok:
-                    run.fail(Finding("G2-group-names-exist", q, f"group({c.args[0].value!r})", f"m.group({c.args[0].value!r}) names no group of the pattern: IndexError at run time", model.loc(SCHEMA, c)))
-        run.floor(f"group() calls in {cname}.from_string", n, 8)
+        from ..rx.sites import group_accesses
+        for c, recv, gname in group_accesses(fi.node):
+            # which match object? the one bound from this pattern's match (others, e.g. NOIDLEN_MATCH, are checked against their own pattern)
+            pat_for_recv = pattern_of_match_var(model, fi, recv)
+            gset = groups if pat_for_recv is None or pat_for_recv == s.name else set(Lang(build(sites[pat_for_recv].pattern, sites[pat_for_recv].flags, "match")).nfa.groups) if pat_for_recv in sites else groups
+            n += 1
+            ok = gname in gset
+            run.ob("G2-group-names-exist", ok, {"class": cname, "group": gname})
+            if not ok:
+                run.fail(Finding("G2-group-names-exist", q, f"group({gname!r})", f"m.group({gname!r}) names no group of the pattern: IndexError at run time", model.loc(SCHEMA, c)))
+        run.floor(f"group accesses in {cname}.from_string", n, 8)
         # totality
         escs = mr.escapes(q, None)
         for e in sorted(escs, key=lambda e: (e.exc, e.func, e.line)):
